@@ -204,7 +204,7 @@ func runC09(c *explore.Ctx) {
 	if c.Thorough() {
 		spaces = []plSpace{{"E", "ROLL", 5}, {"E", "ROLL+SW", 5}, {"E", "BIGC", 5}, {"E", "BIGC+SW", 4}, {"S2", "ROLL", 4}, {"CH", "BIGC", 3}, {"SP", "BIGC", 3}}
 	} else {
-		spaces = []plSpace{{"E", "ROLL", 4}, {"E", "ROLL+SW", 3}, {"E", "BIGC", 4}, {"E", "BIGC+SW", 3}, {"S2", "ROLL", 3}, {"SP", "BIGC", 2}}
+		spaces = []plSpace{{"E", "ROLL", 4}, {"E", "ROLL+SW", 3}, {"E", "BIGC", 4}, {"E", "BIGC+SW", 3}, {"S2", "ROLL", 3}, {"SP", "BIGC", 2}, {"CH", "BIGC", 2}}
 	}
 	runPowerSpaces(c, spaces, true)
 }
@@ -225,8 +225,12 @@ func runPowerSpaces(c *explore.Ctx, spaces []plSpace, afterCloseOnly bool) {
 		sp := sp
 		letters := c06Letters()
 		if sp.Base != "E" && sp.Base != "S2" && sp.Base != "T" {
-			letters = []explore.Op{{Kind: explore.Put, Key: base.Alpha[0]}, {Kind: explore.Put, Key: base.Alpha[len(base.Alpha)-3]}, {Kind: explore.Delete, Key: base.Alpha[0]},
-				{Kind: explore.Sync}, {Kind: explore.Compact}, {Kind: explore.Reopen}}
+			letters = []explore.Op{{Kind: explore.Put, Key: base.Alpha[0]}, {Kind: explore.Put, Key: base.Alpha[len(base.Alpha)-3]}, {Kind: explore.Delete, Key: base.Alpha[0]}}
+			if base.Keys["o0"] != nil {
+				// a key whose slot lives in an overflow bucket: updating it rewrites overflow.pix in place
+				letters = append(letters, explore.Op{Kind: explore.Put, Key: "o0"}, explore.Op{Kind: explore.Delete, Key: "o0"})
+			}
+			letters = append(letters, explore.Op{Kind: explore.Sync}, explore.Op{Kind: explore.Compact}, explore.Op{Kind: explore.Reopen})
 		}
 		if c.Mine() {
 			if v := powerWord(c, base, sp, nil, 0, memo, afterCloseOnly); v != nil {
